@@ -15,6 +15,3 @@ String Notation bstr bstr_of_list list_of_bstr : bstr_scope.
 
 Definition bx (b : bstr) : bytes := map ascii_of_byte (list_of_bstr b).
 Arguments bx _%bstr.
-
-Example bx_hx : bx "http://a.b/?q=""1""" = hx "687474703a2f2f612e622f3f713d223122".
-Proof. vm_compute. reflexivity. Qed.
